@@ -27,6 +27,10 @@ CHECKS = {
             "§6 C08",
             "unbounded refinement proof over operation histories + differential correspondence",
             "dissect.util.stream.AlignedStream is an external dependency, transcribed into Hv/Stream.lean (modelled, tied by correspondence). lru_cache/cached_property transparency rests on file immutability (C09). Stream classes covered so far: VDI, VHD, HDS, VHDX (VMDK, QCOW2, StorageStream are added as their models land)."),
+    "C02": ("Lean 4 theorems sparse_read_correct / getRuns_merge_sound / vmdk_backendOK / vmdk_stream_correct over a model of vmdk.py (three header layouts, footer re-read, GD sizing, grain-table and grain lookup incl. SE-sparse decoding, get_runs coalescer, read_sectors, compressed-grain reader with inflate as a parameter, RawDisk, extent walk); the coalescing proof carries a pending-run invariant; masks/shifts/layouts re-extracted each run (incl. literals inside function bodies); model (with a Lean inflate), real code and construction truth compared on generated extents of all kinds",
+            "§6 C02",
+            "unbounded proof (induction over get_runs with a pending-run invariant) + extraction + differential correspondence",
+            "Proved for uncompressed sparse extents (hosted, footer, COWD, SE-sparse) and flat extents; for stream-optimised (compressed) extents only progress is proved and the read path is covered by the executable model + correspondence (sparse_read_correct is *partial* there). zlib is a parameter of the model. WF includes 'every needed lookup returns the format's value' (evaluated per case by the driver)."),
 }
 
 NOT_YET = {
